@@ -1,10 +1,12 @@
 (* model runner shared by the PeerConnection suites of C10 and C16: a first
-   offer, or an answer to a remote offer, projected to the codec and extmap
-   lines of every generated media section *)
+   offer, or a history of answered remote offers (local transceivers added
+   before and between them), projected to the codec and extmap lines of every
+   generated media section and to the transceiver each offered section is
+   given *)
 From Coq Require Import List ZArith NArith String Bool.
 Import ListNotations.
 From Verif Require Import Common.V Common.Base Common.CodecUtil Model.Fmtp Model.Codec
-     Model.HeaderExt Model.Section Check.CodecIO.
+     Model.HeaderExt Model.Section Model.CodecAssoc Check.CodecIO.
 Open Scope string_scope.
 
 Definition tdir_of_Z (z : Z) : tdir := match z with 1%Z => DSendonly | _ => DRecvonly end.
@@ -13,21 +15,37 @@ Definition tdir_of_Z (z : Z) : tdir := match z with 1%Z => DSendonly | _ => DRec
 Definition extreg_in := (string * Z * list Z)%type.
 (* local transceiver: kind, direction (1 recvonly, 2 sendrecv, 3 sendonly), preferences *)
 Definition trans_in := (Z * Z * list codec_in)%type.
-(* remote section: kind, codecs, extmap lines, index of the local transceiver it is given *)
-Definition rsec_in := (Z * list codec_in * list (Z * string) * option nat)%type.
+(* remote section: kind, direction (1 recvonly, 2 sendrecv, 3 sendonly, 4 inactive), codecs, extmap lines *)
+Definition rsec_in := (Z * Z * list codec_in * list (Z * string))%type.
+(* an earlier exchange: the offer answered, then the local transceivers added after it *)
+Definition round_in := (list rsec_in * list trans_in)%type.
 
+(* registrations, multi-codec switch, header extensions, local transceivers added
+   first, earlier exchanges, the offer answered last (None: CreateOffer) *)
 Definition pc_case :=
-  (list codec_in * list codec_in * bool * list extreg_in * list trans_in * option (list rsec_in))%type.
+  (list codec_in * list codec_in * bool * list extreg_in * list trans_in * list round_in
+   * option (list rsec_in))%type.
 
 Definition register_all (cs : list codec) : list codec :=
   fold_left (fun l c => fst (add_codec l c)) cs [].
 
-Definition mk_trans (e : engine) (t : trans_in) : trans * bool :=
-  match t with
-  | (k, d, prefs) =>
-      let '(p, err) := apply_prefs e (kind_of_Z k) (map codec_of prefs) in
-      (mkTrans (kind_of_Z k) p (negb (Z.eqb d 1)) (negb (Z.eqb d 3)), err)
+Definition dir_of_Z (z : Z) : AD.dir :=
+  match z with
+  | 1%Z => AD.Recvonly | 3%Z => AD.Sendonly | 4%Z => AD.Inactive | _ => AD.Sendrecv
   end.
+
+Definition osec_of (s : rsec_in) : osec :=
+  match s with (k, d, cs, xs) => mkOsec (kind_of_Z k) (dir_of_Z d) (map codec_of cs) xs end.
+
+(* AddTransceiverFromKind + SetCodecPreferences, observed as (add failed, preferences refused) *)
+Definition add_locals (s : mpc) (ls : list trans_in) : mpc * list V :=
+  fold_left (fun st l =>
+               match l with
+               | (k, d, prefs) =>
+                   match add_local (fst st) (kind_of_Z k) (dir_of_Z d) (map codec_of prefs) with
+                   | (s', aerr, perr) => (s', (snd st ++ [VL [VB aerr; VB perr]])%list)
+                   end
+               end) ls (s, []).
 
 (* insertion sort of codecs by payload type (canonical order of the RTX tail) *)
 Fixpoint insert_by_pt (c : codec) (l : list codec) : list codec :=
@@ -40,7 +58,7 @@ Definition sort_by_pt (l : list codec) : list codec := fold_right insert_by_pt [
 (* "rtx" by the name on the rtpmap line: all the harness can see *)
 Definition rtx_name (c : codec) : bool := eq_fold (codec_name c) "rtx".
 
-(* sections of transceivers created from the remote description list their RTX
+(* sections of transceivers created from a remote description list their RTX
    entries in Go map order: compared with the RTX entries moved to the end and
    sorted by payload type (the harness does the same) *)
 Definition canon (from_remote : bool) (s : lsection) : lsection :=
@@ -63,40 +81,72 @@ Definition Vsections (r : result (list lsection)) (from_remote : list bool) : li
   | Panic => [VS "panic"]
   end.
 
+Definition remote_flag (s : mpc) (i : nat) : bool :=
+  match nth_error (m_ext s) i with Some x => tx_remote x | None => false end.
+
+(* one exchange: next state (None: the history ends here) and what is seen of it:
+   the transceiver (position in GetTransceivers()) given to every offered
+   section, and the answer's sections *)
+Definition exchange_obs (s : mpc) (offer : list osec) : option mpc * V :=
+  match srd_offer s offer with
+  | (_, Err msg) => (None, VL [VS ("srd:" ++ msg)])
+  | (_, Panic) => (None, VL [VS "panic"])
+  | (s1, Ok _) =>
+      match assoc_of s1 offer with
+      | Ok l =>
+          let idx := map snd l in
+          let r := answer_secs s1 l in
+          (match r with Ok _ => Some (sld_answer s1 offer) | _ => None end,
+           VL (VL (map (fun i => VZ (Z.of_nat i)) idx) :: Vsections r (map (remote_flag s1) idx)))
+      | Err e => (None, VL [VS ("create:" ++ e)])
+      | Panic => (None, VL [VS "panic"])
+      end
+  end.
+
+Fixpoint run_rounds (s : mpc) (rs : list round_in) : option mpc * list V :=
+  match rs with
+  | [] => (Some s, [])
+  | (offer, locals) :: more =>
+      match exchange_obs s (map osec_of offer) with
+      | (None, v) => (None, [VL [v; VL []]])
+      | (Some s1, v) =>
+          let '(s2, lv) := add_locals s1 locals in
+          let '(r, vs) := run_rounds s2 more in
+          (r, VL [v; VL lv] :: vs)
+      end
+  end.
+
+Definition all_trans (s : mpc) : list trans :=
+  flat_map (fun i => match trans_at s i with Some t => [t] | None => [] end)
+           (seq 0 (List.length (m_trs s))).
+
 Definition run (inp : pc_case) : V :=
   match inp with
-  | (vreg, areg, multi, xregs, locals, remote) =>
+  | (vreg, areg, multi, xregs, locals, rounds, remote) =>
       let e0 := new_engine (register_all (map codec_of vreg)) (register_all (map codec_of areg)) multi in
       let x0 := fold_left (fun x r => match r with (uri, k, dirs) =>
                                         register_ext x uri (kind_of_Z k) (map tdir_of_Z dirs) end)
                           xregs x_empty in
-      let ts := map (mk_trans e0) locals in
-      let perr := VL (map (fun te => VB (snd te)) ts) in
-      match remote with
-      | None =>
-          (* CreateOffer: a rejected section has no mid, hasLocalDescriptionChanged
-             then never settles and CreateOffer gives up (PeerConnection behaviour,
-             outside the section model) *)
-          let r := sections_of e0 x0 (map (fun te => (fst te, None)) ts) in
-          match r with
-          | Ok l => if existsb l_rejected l then VL [perr; VS "create:excessive-retries"]
-                    else VL (perr :: Vsections r (map (fun _ => false) ts))
-          | _ => VL (perr :: Vsections r (map (fun _ => false) ts))
-          end
-      | Some secs =>
-          let rs := map (fun s => match s with (k, cs, xs, _) =>
-                                    mkRsec (kind_of_Z k) (map codec_of cs) xs end) secs in
-          match update_remote_x e0 x0 rs with
-          | (_, _, Err msg) => VL [perr; VS ("srd:" ++ msg)]
-          | (_, _, Panic) => VL [perr; VS "panic"]
-          | (e1, x1, Ok _) =>
-              let assoc := map (fun s => match s with (_, _, _, a) =>
-                                  match a with
-                                  | Some i => nth_error (map fst ts) i
-                                  | None => None
-                                  end end) secs in
-              VL (perr :: Vsections (answer_sections e1 x1 (combine rs assoc))
-                                    (map (fun a => match a with None => true | Some _ => false end) assoc))
-          end
-      end
+      let '(s0, lv0) := add_locals (new_mpc e0 x0) locals in
+      let '(r, rvs) := run_rounds s0 rounds in
+      let final :=
+        match r with
+        | None => VL [VS "not-reached"]
+        | Some s =>
+            match remote with
+            | None =>
+                (* CreateOffer: a rejected section has no mid, hasLocalDescriptionChanged
+                   then never settles and CreateOffer gives up (PeerConnection behaviour,
+                   outside the section model) *)
+                let ts := all_trans s in
+                let r := sections_of (m_e s) (m_x s) (map (fun t => (t, None)) ts) in
+                match r with
+                | Ok l => if existsb l_rejected l then VL [VS "create:excessive-retries"]
+                          else VL (Vsections r (map (fun _ => false) ts))
+                | _ => VL (Vsections r (map (fun _ => false) ts))
+                end
+            | Some offer => snd (exchange_obs s (map osec_of offer))
+            end
+        end in
+      VL [VL lv0; VL rvs; final]
   end.
